@@ -12,7 +12,7 @@ import (
 
 func TestC11(t *testing.T) {
 	runProp(t, "C11", func(t *rapid.T) *core.Case {
-		c := drawGeneral(t, gen.Profile{MaxDepth: 3}, gen.WindowOpts{}, gen.DataOpts{Specials: true, MaxSeries: 40, Histogram: true})
+		c := drawGeneral(t, gen.Profile{MaxDepth: 3}, gen.WindowOpts{}, gen.DataOpts{Specials: true, MaxSeries: 40, Histogram: true, Big: true})
 		c.Shuffle = uint64(rapid.IntRange(1, 1<<30).Draw(t, "perm"))
 		// >=3 distinct GOMAXPROCS incl. 1 and an odd shard count
 		c.Procs = 1
